@@ -422,6 +422,16 @@ def tableSentenceList (sentence : Option Bytes) (prefixes : List (List UCand × 
    | none => []) ++
   prefixes.flatMap (fun p => if p.1.isEmpty then p.2 else p.1.map UCand.toCand)
 
+/-- `tableSentenceList` for any `translator/max_homographs` (`mh`, default 1): in `MakeSentence` the table lookup of a prefix
+is skipped iff the user dictionary already filled the edge with `mh` entries (`homographs.size() >= max_homographs_`,
+table_translator.cc:564/655); otherwise both collectors hold that prefix length and `SentenceTranslation::PreferUserPhrase`
+(`user_phrase_code_length >= table_code_length`) shows the user phrases first. -/
+def tableSentenceListH (mh : Nat) (sentence : Option Bytes) (prefixes : List (List UCand × List Cand)) : List Cand :=
+  (match sentence with
+   | some t => [({ text := t, user := false, sentence := true } : Cand)]
+   | none => []) ++
+  prefixes.flatMap (fun p => p.1.map UCand.toCand ++ (if p.1.length < mh then p.2 else []))
+
 /-- the commit entry `AppendPhrase` builds out of consecutive recognized selections -/
 def assemble (sels : List Sel) : CommitEntry := sels.foldl CommitEntry.append CommitEntry.empty
 
